@@ -6,10 +6,12 @@
 //                           parmcb::read_dimacs_from_file into the demo programs' graph type
 //                           adjacency_list<vecS, vecS, undirectedS, no_property, property<edge_weight_t, double>>.
 //                           output:  OK <n> <m> (<source> <target> <weight %a>)*   in boost::edges order,   or  THROW
+//                           (std::system_error), or IMPL-EXCEPTION ... for anything else (e.g. std::bad_alloc)
 //   V n m (u v w)*m         multigraph (0-based endpoints, weights as C99 hex floats or decimal integers, read by
 //                           strtod => exact).  output:  V <has_loops> <has_multiple_edges> <has_non_positive_weights>
 #include "common.hpp"
 #include <unistd.h>
+#include <sys/resource.h>
 #include <parmcb/config.hpp>
 #include <boost/graph/adjacency_list.hpp>
 #include <parmcb/util.hpp>
@@ -77,6 +79,11 @@ static void do_validators(Toks &t, std::ostream &out) {
 }
 
 int main() {
+    // Defect D3 can make the reader loop over an uninitialised nnodes ("p edge 5" as an unterminated last line is read as
+    // "p edge "): cap the address space so that such a run ends in std::bad_alloc instead of exhausting the machine.
+#if !defined(__SANITIZE_ADDRESS__) && !defined(__SANITIZE_THREAD__)
+    { struct rlimit rl; rl.rlim_cur = rl.rlim_max = (rlim_t) 3 << 30; setrlimit(RLIMIT_AS, &rl); }
+#endif
     const char *td = getenv("TMPDIR");
     tmp_path = std::string(td && *td ? td : "/tmp") + "/c10h." + std::to_string((long) getpid());
     atexit(remove_tmp);
